@@ -4,7 +4,9 @@ package main
 // min-gas-price (zero, fractional, integral, large), base fee (disabled, below,
 // at, above the min gas price), min-gas multiplier (0, 1/2, 1, 18-digit values);
 // prices, fee caps, tips and declared fees at the acceptance thresholds -1/0/+1;
-// gas limits around the intrinsic gas; sender balances around the exact cost.
+// gas limits around the intrinsic gas; 1-5 messages per Ethereum transaction signed
+// by 1-3 different accounts in any interleaving; signer balances around the exact
+// cost of the signer's own messages.
 
 import (
 	"math/big"
@@ -186,6 +188,31 @@ func feesGenMsg(r *Rng, p feeParams, nz map[int]bool, pre *[]int, nextSlot *int)
 	return m
 }
 
+// feesFixMsg lifts a generated message over the acceptance thresholds (price / fee
+// cap and effective price at or just above max(ceil(minGasPrice), base fee), tip
+// within the cap, gas limit at least the intrinsic gas), so that transactions of
+// several messages are not refused nearly always because of one of them.
+func feesFixMsg(r *Rng, p feeParams, m *feeMsg) {
+	floorP := ceilDiv(bigOf(p.Mgp), big1e18)
+	base := p.effBase()
+	need := bmax(floorP, base)
+	price := bigOf(m.Price)
+	if price.Cmp(need) < 0 {
+		price = new(big.Int).Add(need, bi(int64(r.Intn(3))))
+		m.Price = price.String()
+	}
+	if m.Type == 2 {
+		tip := bigOf(m.Tip)
+		if exact := nonneg(new(big.Int).Sub(need, base)); tip.Cmp(exact) < 0 {
+			tip = new(big.Int).Add(exact, bi(int64(r.Intn(3))))
+		}
+		m.Tip = bmin(tip, price).String()
+	}
+	if intr := m.intrinsic(); m.Gas < intr {
+		m.Gas = intr + uint64(r.Intn(3))*uint64(20000+r.Intn(50000))
+	}
+}
+
 func feesGenCosmos(r *Rng, p feeParams) feeTx {
 	t := feeTx{Route: "cosmos"}
 	gases := []uint64{300_000, 500_000, 1_000_000, 10_000_000, 777_777}
@@ -274,42 +301,89 @@ func feesGen(r *Rng) feeInput {
 		}
 		t := feeTx{Route: "eth"}
 		nm := 1
-		if k := r.Intn(100); k >= 90 {
+		switch k := r.Intn(100); {
+		case k >= 94:
+			nm = 5
+		case k >= 87:
+			nm = 4
+		case k >= 73:
 			nm = 3
-		} else if k >= 70 {
+		case k >= 50:
 			nm = 2
 		}
+		// signers: 1-3 different accounts out of A, B, C (any of them first), every
+		// message assigned to one of them independently: all interleavings
+		ids := []int{0, 1, 2}
+		for j := 2; j > 0; j-- {
+			k := r.Intn(j + 1)
+			ids[j], ids[k] = ids[k], ids[j]
+		}
+		ns := 1
+		if nm > 1 {
+			switch k := r.Intn(100); {
+			case k >= 70:
+				ns = 3
+			case k >= 25:
+				ns = 2
+			}
+		} else if r.Chance(80) {
+			ids[0] = 0
+		}
+		lift := nm > 1 && r.Chance(60)
 		for j := 0; j < nm; j++ {
-			t.Msgs = append(t.Msgs, feesGenMsg(r, in.Params, nz, &in.Pre, &next))
+			m := feesGenMsg(r, in.Params, nz, &in.Pre, &next)
+			if lift {
+				feesFixMsg(r, in.Params, &m)
+			}
+			m.From = ids[r.Intn(ns)]
+			if j < ns && r.Chance(70) {
+				m.From = ids[j] // the first messages introduce the signers one after the other
+			}
+			t.Msgs = append(t.Msgs, m)
 		}
 		in.Txs = append(in.Txs, t)
 	}
-	// sender balance: ample, or around the exact cost of the first transaction
-	bal := new(big.Int).Exp(bi(10), bi(23), nil)
-	if r.Chance(18) {
-		base := in.Params.effBase()
-		t := in.Txs[0]
-		cost := bi(0)
-		if t.Route == "eth" {
-			useCap := r.Bool()
-			for _, m := range t.Msgs {
-				pr := m.effPrice(base)
-				if useCap {
-					pr = bigOf(m.Price)
-				}
-				cost.Add(cost, new(big.Int).Mul(pr, new(big.Int).SetUint64(m.Gas)))
-				cost.Add(cost, bigOf(m.Value))
-			}
-		} else {
-			for _, c := range t.Fee {
-				if c.D == 0 {
-					cost.Add(cost, bigOf(c.A))
-				}
-			}
-			cost.Add(cost, bigOf(t.Send))
+	// balances of the signers: ample, or around the exact cost of the signer's own
+	// messages in the first transaction that it signs (what it must afford, no more)
+	ample := new(big.Int).Exp(bi(10), bi(23), nil)
+	base := in.Params.effBase()
+	bals := []*big.Int{ample, ample, ample}
+	for s := 0; s < 3; s++ {
+		if !r.Chance(18) {
+			continue
 		}
-		bal = nonneg(new(big.Int).Add(cost, bi(int64(r.Intn(3)-1))))
+		for _, t := range in.Txs {
+			cost, signs := bi(0), false
+			if t.Route == "eth" {
+				useCap := r.Bool()
+				for _, m := range t.Msgs {
+					if m.From != s {
+						continue
+					}
+					signs = true
+					pr := m.effPrice(base)
+					if useCap {
+						pr = bigOf(m.Price)
+					}
+					cost.Add(cost, new(big.Int).Mul(pr, new(big.Int).SetUint64(m.Gas)))
+					cost.Add(cost, bigOf(m.Value))
+				}
+			} else if s == 0 {
+				signs = true
+				for _, c := range t.Fee {
+					if c.D == 0 {
+						cost.Add(cost, bigOf(c.A))
+					}
+				}
+				cost.Add(cost, bigOf(t.Send))
+			}
+			if signs {
+				bals[s] = nonneg(new(big.Int).Add(cost, bi(int64(r.Intn(3)-1))))
+				break
+			}
+		}
 	}
-	in.Bal = bal.String()
+	in.Bal = bals[0].String()
+	in.Bals = []string{bals[1].String(), bals[2].String()}
 	return in
 }
